@@ -186,10 +186,24 @@ def stage_atoms(run, pt, orc, tl, pools, quick):
         for w in ws:
             m_atom = nc.parse_outcome(next(rep))
             m_cmp = nc.parse_outcome(next(rep))
-            r1 = nc.scat_tuple(n.scattering(wavelength=w) if w != 1.798 else n.scattering())
-            r2 = n.sld(wavelength=w) if w != 1.798 else n.sld()
-            r3 = nc.scat_tuple(nsf.neutron_scattering(atom, wavelength=w))
-            r4 = nsf.neutron_sld(atom, wavelength=w)
+            try:
+                raw1 = n.scattering(wavelength=w) if w != 1.798 else n.scattering()
+                r2 = n.sld(wavelength=w) if w != 1.798 else n.sld()
+                raw3 = nsf.neutron_scattering(atom, wavelength=w)
+                r4 = nsf.neutron_sld(atom, wavelength=w)
+            except Exception as e:  # noqa
+                run.violation("querying an atom that has neutron data raised %s" % type(e).__name__,
+                              dict(atoms=[[z, A, 0, 1.0]], density=atom.density, mode="wavelength", w=[w]),
+                              site="raises")
+                continue
+            if any(v is None for v in list(raw1) + list(r2) + list(raw3)) or r4 is None or any(v is None for v in r4):
+                # b_c and the number density are tabulated for this atom (b_c may be exactly 0.0)
+                run.violation("an atom that has neutron data (b_c = %r) yields None" % n.b_c,
+                              dict(atoms=[[z, A, 0, 1.0]], density=atom.density, mode="wavelength", w=[w]),
+                              site="data-treated-as-missing")
+                continue
+            r1 = nc.scat_tuple(raw1)
+            r3 = nc.scat_tuple(raw3)
             N = n._number_density * 1e-24
             key = "atom:%d:%d:%r" % (z, A, w)
             run.count(key=key, nontrivial=True, tag="atom-sweep",
